@@ -28,32 +28,49 @@ THEOREMS = [P + t for t in (
     "history_reads_depend_on_state_only", "history_reads_ignore_owned", "jsondata_value_is_function_of_text", "jsondata_eq_own_text",
     "tags_reads_stable", "maintenance_reads_stable", "update_copies", "update_copy_independent", "update_shared_counterexample",
     "history_keeps_roundtrip", "list_classes_sane",
+    "json_roundtrip", "jsonfield_text_roundtrip", "all_classes_text_roundtrip", "tags_text_roundtrip", "jsondata_obj_value",
+    "maintenance_text_roundtrip", "iso_subsecond_offset_counterexample", "pathinfo_text_roundtrip", "gateway_text_roundtrip", "location_text_roundtrip",
 )]
 TRUSTED_BASE = [
-    "gen/fields.py: AST patterns for JSONField._set_fields guards, to_json/to_dict drop conditions, from_json/update statement lists; "
-    "field names/defaults read from instantiated classes",
-    "Model/Json.lean render = json.dumps (default separators, ensure_ascii) - differential only; JSON parsing is not modelled "
-    "(decoders take parsed values; json.loads(json.dumps(x)) == x for JSON values is assumed)",
-    "Labels VALIDATORS/LAMBDA_VALIDATORS are an abstract predicate `valid` in the theorems (C16 owns them); the driver uses "
-    "`true` and the harness only sends label values the implementation accepted",
-    "datetime.fromisoformat/isoformat is an abstract function `iso` (hypothesis: canonical ISO text is a fixed point); "
-    "the harness supplies its graph on the strings of each case",
-    "mutation of inputs, aliasing of inputs / returned values and process-level hidden state are checked by the oracle (deep-copy "
-    "snapshots after every call, in-place changes of caller-owned objects, class orders in this process and in fresh "
-    "interpreters), not proved: the Lean model is purely functional, which is exactly what those checks establish for the code; "
-    "the translator refuses class-level mutable attributes / run-time writes to class attributes on JSONField classes",
-    "keys that name a method/class attribute of the class, and the parameter names self/forgiving/cls/lab, are outside the model "
-    "(`unmodelled`); the oracle reports the former on the implementation",
+    "gen/fields.py: AST patterns for JSONField._set_fields guards / field test (getattribute or membership in __dict__), to_json/to_dict "
+    "drop conditions, from_json/update statement lists (update: by-reference or list-copying value expression -> updateCopiesLists); "
+    "field names/defaults read from instantiated classes; the class list is every descendant of JSONField in the running module, "
+    "cross-checked against the class statements of every module under /repo/fim (a subclass declared elsewhere is an extraction error)",
+    "Model/Json.lean render = json.dumps (default separators, ensure_ascii) and Model/JsonParse.lean parse = json.loads are hand-written "
+    "mirrors checked differentially on every run (json.parse / *.dectext lines: own encodings, re-spaced, duplicate keys, escapes, "
+    "surrogate pairs, NaN/Infinity, syntactically damaged texts); parse (render j) = some j is PROVED for every value with distinct "
+    "keys whose floats are number lexemes with a fraction or exponent (parse_render). A float is carried as the text json.dumps "
+    "writes for it: the float<->text conversion of CPython (repr / float()) is not modelled, and a float lexeme that is not in "
+    "repr form is outside the model; lone surrogates and nesting beyond the recursion limit are outside the model",
+    "Labels VALIDATORS/LAMBDA_VALIDATORS and the Tags pattern are abstract predicates `valid` / `okTag` in the theorems (C16 owns them); the "
+    "driver uses `true` and the harness only sends values the implementation accepted",
+    "Model/IsoDate.lean: datetime.isoformat() and fromisoformat() on the shape isoformat() writes, with datetime's range checks and "
+    "CPython's offset handling (fields summed, whole-second part zero -> UTC), checked differentially (iso lines); fromisoformat's other "
+    "spellings are supplied by table in mi.dec lines",
+    "aliasing: the Lean model separates the value object's state from caller-owned objects (Hist.World) and proves reads are functions of "
+    "the state; that the code IS such a world (JSONData, Tags, finalized MaintenanceInfo) or a by-reference world (JSONField list fields, "
+    "update copies) is established by hist correspondence lines that really mutate arguments and returned objects in place, and by the "
+    "alias oracle family on every class (deep-copy snapshots of every argument, mutate-arg, mutate-result, second reads, derived instances); "
+    "process-level hidden state: class orders in this process and in fresh interpreters; the translator refuses class-level mutable "
+    "attributes / run-time writes to class attributes on JSONField classes",
+    "keys that name a method/class attribute of a class whose _set_fields tests __getattribute__, and the parameter names "
+    "self/forgiving/cls/lab, are outside the model (`unmodelled`); the oracle reports the former on the implementation",
 ]
 ASSUMPTIONS = [
     "WellTyped domain: values constructible through the public constructors/setters in their documented domain "
     "(non-negative ints for Capacities, str for hints, str or list of str for Labels/ReservationInfo/StructuralInfo, str or finite "
     "float for Location, bool for Flags); None or bool in a capacity field, NaN/inf coordinates are excluded",
     "Labels values are drawn from examples the implementation's validators accept",
+    "by-reference channels (a list the caller assigned to a JSONField list field / Path.a2z,z2a, the Path given to PathInfo.set, the "
+    "entries of an unfinalized MaintenanceInfo) are not required to be private copies: the property does not state it; they are counted "
+    "and the object must stay lossless after the change (history_keeps_roundtrip)",
+    "MaintenanceEntry dates: every datetime except a UTC offset shorter than one second (known finding, lost by CPython's fromisoformat)",
 ]
-RULE = ("(class, value) and (class, text with unknown keys) over the 7 JSONField classes, Tags, 3 JSONData classes, Gateway, "
-        "PathInfo, ERO, MaintenanceInfo and 4 typed tuples; every field, scalar and list forms, 0/0.0/False/''/[] and huge values, "
-        "non-ASCII; non-trivial = at least one field set (or a non-empty payload/list); distinct by (op, class, canonical request)")
+RULE = ("(class, value), (class, text with unknown keys / re-spaced / damaged) and (class, value, history of reads and in-place mutations of "
+        "arguments and results) over every JSONField class found in the source, Tags, 3 JSONData classes, Gateway, PathInfo, ERO, "
+        "MaintenanceInfo/Entry and 4 typed tuples; every field, scalar / list / tuple forms, 0/0.0/False/''/[] and huge values, non-ASCII; "
+        "JSON texts and ISO dates against CPython; non-trivial = at least one field set (or a non-empty payload/list) / a history with at "
+        "least one mutation; distinct by (op, class, canonical request)")
 
 # --------------------------------------------------------------------------
 # wire form
@@ -287,6 +304,28 @@ def impl_eval(M, r):
             return ["ok", [t.type, to_wire(t.val), t.get_as_string()]]
         if op == "json.parse":
             return ["ok", to_wire(json.loads(r[1]))]
+        if op == "jf.dectext":
+            o = getattr(cl, r[1]).from_json(r[2])
+            return ["ok", None if o is None else show(o)]
+        if op == "gw.dectext":
+            g = gw.Gateway.from_json(r[1])
+            return ["ok", None if g is None or g.lab is None else show(g.lab)]
+        if op == "pi.dectext":
+            return ["ok", pi_show(pi, pi.PathInfo.from_json(r[1]))]
+        if op == "ero.dectext":
+            return ["ok", pi_show(pi, pi.ERO.from_json(r[1]))]
+        if op == "tags.dectext":
+            t = tg.Tags.from_json(r[1])
+            return ["ok", None if t is None else [list(t.tags), t.to_json()]]
+        if op == "mi.dectext":
+            m = mm.MaintenanceInfo.from_json(r[1])
+            if m is None:
+                return ["ok", None]
+            try:
+                enc = ["ok", m.to_json()]
+            except Exception as e:
+                enc = ["err", kind(e)]
+            return ["ok", [mi_wire(m), enc]]
         if op == "iso":
             return ["ok", datetime.fromisoformat(r[1]).isoformat()]
         if op == "hist":
@@ -806,6 +845,75 @@ def gen_requests(M, rng, n):
         t = rng.choice(tuple_types(tt, cname))
         s = rng.choice(["", " ", "\t"]) + t + ":" + rng.choice(TV) + rng.choice(["", " ", "\n"])
         reqs.append([rng.choice(["tt.from", "tt.parse"]), cname, s])
+    # --- the decoders on TEXT (json.loads inside the model): own encodings, re-spaced, with unknown keys, damaged
+    def respace(t, r):
+        try:
+            o = json.loads(t)
+        except Exception:
+            return t
+        k = r.random()
+        return t if k < 0.4 else json.dumps(o, indent=r.choice([0, 2])) if k < 0.6 else json.dumps(o, separators=(",", ":")) if k < 0.8 else \
+            " " + json.dumps(o, ensure_ascii=False) + "\n"
+
+    def damage(t, r):
+        if len(t) < 2 or r.random() < 0.8:
+            return t
+        j = r.randrange(len(t))
+        c = r.choice([t[:j], t[:j] + t[j + 1:], t + "}", t[:j] + "," + t[j:]])
+        try:        # damage that leaves valid JSON changes a *value* (a label the validators reject, a non-canonical date ...): the abstract
+            json.loads(c)       # parts of the model are not meant for those; only syntactic damage is sent
+            return t
+        except Exception:
+            return c
+    for C in classes:
+        for t in ["", "None", "null", "{}", "[]", "0", '""', " ", "{", '{"future_field": 1}', "nul"]:
+            reqs.append(["jf.dectext", C.__name__, t])
+        for i in range(max(6, n // 40)):
+            try:
+                t = C(**domain_kwargs(cl, C, rng)).to_json()
+            except Exception:
+                continue
+            if t and rng.random() < 0.3:
+                d = json.loads(t)
+                t = json.dumps(dict(with_unknown(d, rng, vals=[j for j in JUNK if passes_guard(C, j)])))
+            t = respace(t, rng)
+            if guard_of(C) != "strfloat":       # a damaged float lexeme may still be a number whose repr differs from the lexeme (outside the model)
+                t = damage(t, rng)
+            if "\\u" in t and t.count('"') % 2:
+                continue
+            reqs.append(["jf.dectext", C.__name__, t])
+    for t in ["", "None", "[]", '["a"]', '["a", "b-1", "é"]', '[1]', '{"a": 1}', '"a"', "null", "[", '["a",]']:
+        reqs.append(["tags.dectext", t])
+    for i in range(max(6, n // 60)):
+        t = damage(respace(json.dumps([rng.choice(TAGS) for _ in range(rng.choice([0, 1, 3]))]), rng), rng)
+        try:        # the tag pattern is an abstract predicate of the model (the driver accepts every str): only tags the pattern accepts
+            if any(isinstance(x, str) and x not in TAGS for x in json.loads(t)):
+                continue
+        except Exception:
+            pass
+        reqs.append(["tags.dectext", t])
+    for t in ["", "{}", "[]", "null", '{"n": {"state": "Active"}}', '{"n": {"state": "Maint", "deadline": "2024-01-02T03:04:05", "expected_end": null}}',
+              '{"n": {"state": "Maint", "deadline": "2024-01-02T03:04:05+05:60"}}', '{"n": {"state": "Maint", "deadline": "2024-02-30T03:04:05"}}',
+              '{"a": {"state": "Active"}, "a": {"state": "Maint"}}', '{"n": {"state": "Active", "operator": "x"}}', '{"n"']:
+        reqs.append(["mi.dectext", t])
+    for i in range(max(6, n // 60)):
+        m0 = mm.MaintenanceInfo()
+        for _ in range(rng.choice([0, 1, 2, 3])):
+            m0.add(rng.choice(NODE_NAMES), entry_build(mm, entry(rng)))
+        m0.finalize()
+        reqs.append(["mi.dectext", damage(respace(m0.to_json(), rng), rng)])
+    for d in [{}, v4, v6, dict(v4, mac="00:11:22:33:44:55"), dict(v6, vlan="7"), {"ipv4": "1.2.3.4"}, dict(v4, future="x"), dict(v4, **v6), {"mac": "00:11:22:33:44:55"}]:
+        reqs.append(["gw.dectext", damage(respace(json.dumps(d), rng), rng)])
+    for t in ["", "None", "null", "[]", "{", '{"ipv4_subnet": "10.0.0.0/8", "ipv4": "10.0.0.1", "ipv4_subnet": "10.0.0.0/16"}']:
+        reqs.append(["gw.dectext", t])
+    for d in dec:
+        if d is not None:
+            t = damage(respace(json.dumps(d), rng), rng)
+            reqs.append(["pi.dectext", t])
+            reqs.append(["ero.dectext", t])
+    for t in ["", "{}", "null", "[]", '{"type": "Path", "payload": {"a2z": ["a", "é"], "z2a": null}, "strict": "True"}', '{"type":"Graph","payload":"g","strict":"true"}', "{"]:
+        reqs.append(["pi.dectext", t])
+        reqs.append(["ero.dectext", t])
     # --- datetime.fromisoformat on the texts isoformat() writes (canonical shape), valid and invalid field values
     def rand_dt(r):
         y = r.choice([1, 2, 999, 1970, 2000, 2023, 2024, 2100, 9999, r.randrange(1, 10000)])
@@ -961,6 +1069,8 @@ def nontrivial(r):
         return len(r[1].strip()) > 2
     if op == "iso":
         return len(r[1]) >= 19
+    if op in ("jf.dectext", "tags.dectext", "mi.dectext", "pi.dectext", "ero.dectext", "gw.dectext"):
+        return len(r[-1]) > 4
     if op == "hist":
         return any(st[0] in ("edit", "growX", "growY") for st in r[-1])
     if op == "jf.new":
